@@ -71,6 +71,21 @@ def _a_body(c, m, letter, a, octave):
     up = (letter + 1) % 7, octave + (1 if letter == 6 else 0)
     got_up = kp.pitch_to_gkern_string(pm.AgnosticPitch(rp.agnostic_name(up[0], alt), up[1]), clef)
     check(got_up == model_agnostic(up[0], alt, up[1], bL, bl.octave), f'one step above {rp.humdrum(letter, alt, octave)!r} under {text}: {got_up!r}')
+    # histories on ONE pitch object: converted, asked again, moved through its public setters (octave, then name), converted again --
+    # every answer is the one a freshly built pitch gives (nothing may be remembered on the object from an earlier conversion)
+    check(kp.pitch_to_gkern_string(p, clef) == exp, f'second conversion of the same pitch object under {text} differs from the first ({exp!r})')
+    o2 = octave + 1 if octave < 8 else octave - 1
+    p.octave = o2
+    got2 = kp.pitch_to_gkern_string(p, clef)
+    exp2 = model_agnostic(letter, alt, o2, bL, bl.octave)
+    check(got2 == exp2, f'{rp.humdrum(letter, alt, octave)!r} converted under {text}, its octave then set to {o2}: {got2!r}, a fresh pitch gives {exp2!r}')
+    l3 = (letter + 2) % 7
+    p.name = rp.agnostic_name(l3, alt)
+    got3 = kp.pitch_to_gkern_string(p, clef)
+    exp3 = model_agnostic(l3, alt, o2, bL, bl.octave)
+    check(got3 == exp3, f'pitch object renamed to {rp.agnostic_name(l3, alt)} after two conversions under {text}: {got3!r}, a fresh pitch gives {exp3!r}')
+    # the clef object is not changed by conversions either: the bottom line still maps to e
+    check(kp.pitch_to_gkern_string(pm.AgnosticPitch(bl.name, bl.octave), clef) == 'e', f'bottom line of {text} no longer maps to e after conversions')
     return True
 
 
